@@ -46,7 +46,7 @@ EXTRA_MODULES = {
     "C13": ["Tie.TemplatePrep", "Tie.StatsLane"],
     "C14": ["Kernels.Downsample1d", "Kernels.Downsample2d", "Tie.FilterGeom", "Tie.Detrend", "Tie.DecimWrap"],
     "C15": ["Tie.StatsLane"],
-    "C16": ["Kernels.MaskChannels", "Tie.StateMachines", "Tie.StatsLane"],
+    "C16": ["Kernels.MaskChannels", "Tie.StateMachines", "Tie.StatsLane", "Tie.CleanRfi"],
     "C17": ["Tie.StateMachines"],
     "C18": ["Tie.Plan", "Tie.Pfits", "Tie.PfitsCalib"],
     "C19": ["Tie.Prange", "C19Steps"],
